@@ -51,6 +51,22 @@ func (p *prover) paramTerms() []paramTerm {
 			}
 		}
 	}
+	// package-level tables that are never reassigned: their length means the same thing in every function
+	seenG := map[*ssa.Global]bool{}
+	eachInstr(p.fn, func(in ssa.Instruction) {
+		u, ok := in.(*ssa.UnOp)
+		if !ok || u.Op != token.MUL {
+			return
+		}
+		g, isG := u.X.(*ssa.Global)
+		if !isG || seenG[g] || !p.ix.c.immutableGlobalHeader(g) {
+			return
+		}
+		seenG[g] = true
+		if _, isSl := u.Type().Underlying().(*types.Slice); isSl {
+			out = append(out, paramTerm{Term: "len(" + p.canon(u) + ")", Param: -1, IsLen: true})
+		}
+	})
 	return out
 }
 
@@ -154,6 +170,10 @@ func (ix *idxEngine) translate(callee *ssa.Function, req constraint, site callSi
 	out := linConst(req.e.k)
 	pts := pc.paramTerms()
 	for t, coef := range req.e.coef {
+		if strings.HasPrefix(t, "len(gv:") || strings.HasPrefix(t, "gv:") {
+			out = out.add(linTerm(t).scale(coef)) // an immutable package-level value: the same term at the call
+			continue
+		}
 		var pt *paramTerm
 		for i := range pts {
 			if pts[i].Term == t {
